@@ -127,6 +127,11 @@ extern "C" void harness_main() {
   if (p1.has_value()) sym_assert(same(a.real.B().Projection({1}), *p1), "projection-1");
   if (p2.has_value()) sym_assert(same(a.real.B().Projection({2}), *p2), "projection-2");
   if (p21.has_value()) sym_assert(same(a.real.B().Projection({2, 1}), *p21), "projection-2-1");
+  // every index list of length 1..3 over {1,2}: repeated indices (diagonal), identity, longer than the arity
+  for (const std::vector<int16_t>& idx : std::vector<std::vector<int16_t>>{{1, 1}, {2, 2}, {1, 2}, {1, 1, 2}, {2, 1, 2}, {2, 2, 1}}) {
+    const auto want = ref::Projection(a.want, idx);
+    if (want.has_value()) sym_assert(same(a.real.B().Projection(idx), *want), "projection-index-list");
+  }
   sym_assert((P01.real == P10.real) == (e0 == e1), "tuple-equality-positional");
   sym_reach("pairs");
 #elif FAMILY == 3
